@@ -178,3 +178,40 @@ def _match(m, replay):
 def chunks(seq, n):
     k = max(1, (len(seq) + n - 1) // n)
     return [seq[i:i + k] for i in range(0, len(seq), k)]
+
+
+class HangError(Exception):
+    """Raised inside a driver when one operation of the code under test does not return within its deadline."""
+
+
+import contextlib as _contextlib
+import signal as _signal
+import threading as _threading
+
+
+@_contextlib.contextmanager
+def deadline(seconds):
+    """An operation of the code under test that does not return (a seeded change can turn a loop into an endless one) is reported to the
+    judge as the outcome `HangError` instead of hanging the check.  Main thread of a (pool) process only; elsewhere a no-op."""
+    if _threading.current_thread() is not _threading.main_thread():
+        yield
+        return
+
+    def on_alarm(signum, frame):
+        raise HangError(f"no return within {seconds}s")
+
+    old = _signal.signal(_signal.SIGALRM, on_alarm)
+    _signal.setitimer(_signal.ITIMER_REAL, seconds)
+    try:
+        yield
+    finally:
+        _signal.setitimer(_signal.ITIMER_REAL, 0)
+        _signal.signal(_signal.SIGALRM, old)
+
+
+# diagnostics: `kill -USR1 <pid>` makes any harness process print the Python stack of all its threads to stderr
+try:
+    import faulthandler as _faulthandler
+    _faulthandler.register(_signal.SIGUSR1, all_threads=True)
+except Exception:  # noqa: BLE001
+    pass
